@@ -15,6 +15,11 @@ pub trait VerifKeyed {
     spec fn vk_ticker(&self) -> Seq<char>;
     spec fn vk_year(&self) -> int;
 }
+impl<T: VerifKeyed> VerifKeyed for &T {
+    open spec fn vk_date(&self) -> int { (**self).vk_date() }
+    open spec fn vk_ticker(&self) -> Seq<char> { (**self).vk_ticker() }
+    open spec fn vk_year(&self) -> int { (**self).vk_year() }
+}
 /// `p` witnesses that `b` is a rearrangement of `a`
 pub open spec fn is_perm_of<T>(a: Seq<T>, b: Seq<T>, p: Seq<int>) -> bool {
     &&& p.len() == a.len() && b.len() == a.len() && p.no_duplicates()
